@@ -139,6 +139,22 @@ func (rs reclaimsim) Run(c *Case, dir string) *Outcome {
 				return err
 			}
 		}
+		// nested paged buckets: deleting one frees its pages before commit
+		n, err := tx.CreateBucket([]byte("n"))
+		if err != nil {
+			return err
+		}
+		for j := 0; j < 4; j++ {
+			cb, err := n.CreateBucket([]byte(fmt.Sprintf("child-%d", j)))
+			if err != nil {
+				return err
+			}
+			for i := 0; i < 40; i++ {
+				if err := cb.Put([]byte(fmt.Sprintf("ck-%04d", i)), work.MkVal(ps/8, uint32(j*100+i))); err != nil {
+					return err
+				}
+			}
+		}
 		return nil
 	}); err != nil {
 		out.HarnessErr = err.Error()
@@ -217,6 +233,28 @@ func (rs reclaimsim) Run(c *Case, dir string) *Outcome {
 				prev = p
 				used[int(p.Meta.Txid)] = p.UsedSet()
 			}
+		}
+		if !ex.Steady && t.Chance(1, 6) {
+			// a write transaction that deletes a nested paged bucket and is then
+			// abandoned (user Rollback / Update returning an error): nothing it
+			// freed may stay withheld or become reusable
+			victim := []byte(fmt.Sprintf("child-%d", t.Intn(4)))
+			if t.Chance(1, 2) {
+				if tx, berr := e.DB.Begin(true); berr == nil {
+					if nb := tx.Bucket([]byte("n")); nb != nil {
+						_ = nb.DeleteBucket(victim)
+					}
+					_ = tx.Rollback()
+				}
+			} else {
+				_ = e.DB.Update(func(tx *bolt.Tx) error {
+					if nb := tx.Bucket([]byte("n")); nb != nil {
+						_ = nb.DeleteBucket(victim)
+					}
+					return work.ErrBody
+				})
+			}
+			out.probe("rolled-back-delete-bucket", 1)
 		}
 		noReaderDuringTx := len(readers) == 0
 		err := e.DB.Update(func(tx *bolt.Tx) error {
